@@ -19,6 +19,14 @@ def run(c):
             ("SCOPE", "MC_Scope", c08.cfg(6 if q else 7), "scope-%d" % (6 if q else 7)),
             ("PROG", "MC_Programs", pc.prog_cfg(5 if q else 6, ["sum", "quot", "lt"]), "prog-s%d" % (5 if q else 6)),
             ("PROG", "MC_Programs", pc.prog_cfg(4 if q else 5, ["sum", "lt"], holes=True), "prog-holes%d" % (4 if q else 5))]
+    # M (design level): wherever the grammar requires parentheses the model of Display (GramShow) writes them
+    show_cfg = vf.cfg_consts(MaxSize=5 if q else 6, MaxParens=0, MaxDrops=0, Kinds=c07.ALLKINDS, BinOps={"prod", "quot", "sum", "diff", "lt"}) + \
+        "INIT Init\nNEXT Next\nINVARIANT InvShowValid\nCHECK_DEADLOCK FALSE\n"
+    sv = vf.tlc_generate("MC_Trees", show_cfg, "showvalid-%d" % (5 if q else 6), timeout=6000, workers=14)
+    c.add_tlc(sv, "ShowValid: the printer's parenthesisation is sufficient for every (parent position, child form) pair")
+    if sv["violated"]:
+        c.spec_violation(sv, "the model of Display leaves out parentheses the grammar requires")
+        return
     evfiles = []
     d = os.path.join(vf.WORK, "round")
     os.makedirs(d, exist_ok=True)
